@@ -47,6 +47,7 @@ var aggFields = []string{
 	"ingressNetworkPolicyRulePriority", // 12 i32
 	"octetDeltaCount",                  // 13 u64 (not a supported correlate type)
 	"tcpState",                         // 14 str
+	"flowEndSeconds",                   // 15 dateTimeSeconds (each node's own view; not read by the correlation logic)
 }
 
 func aggElement(name string) *entities.InfoElement {
@@ -122,6 +123,8 @@ func aggMkValue(fi int, tok string) entities.InfoElementWithValue {
 		return entities.NewUnsigned8InfoElement(ie, uint8(atou(tok)))
 	case entities.Unsigned16:
 		return entities.NewUnsigned16InfoElement(ie, uint16(atou(tok)))
+	case entities.DateTimeSeconds:
+		return entities.NewDateTimeSecondsInfoElement(ie, uint32(atou(tok)))
 	case entities.Unsigned64:
 		return entities.NewUnsigned64InfoElement(ie, atou(tok))
 	case entities.Signed32:
@@ -157,6 +160,8 @@ func aggShowValue(e entities.InfoElementWithValue) (s string) {
 		return strconv.Itoa(int(e.GetUnsigned8Value()))
 	case entities.Unsigned16:
 		return strconv.Itoa(int(e.GetUnsigned16Value()))
+	case entities.DateTimeSeconds:
+		return strconv.FormatUint(uint64(e.GetUnsigned32Value()), 10)
 	case entities.Unsigned64:
 		return strconv.FormatUint(e.GetUnsigned64Value(), 10)
 	case entities.Signed32:
@@ -621,6 +626,8 @@ func aggRandValue(r *Rng, fi int) string {
 			return "0"
 		}
 		return strconv.Itoa([]int{1, 80, 4739, 65535}[r.Intn(4)])
+	case entities.DateTimeSeconds:
+		return strconv.Itoa([]int{0, 1, 10, 11, 100, 4294967295}[r.Intn(6)])
 	case entities.Unsigned64:
 		return strconv.Itoa(r.Intn(3))
 	case entities.Signed32:
